@@ -156,6 +156,12 @@ func FlushAll() {
 	if shard == "" {
 		shard = "0"
 	}
+	// the worker processes of a native fuzz campaign share VERIF_OUT and VERIF_SHARD: one file per process
+	for _, a := range os.Args {
+		if a == "-test.fuzzworker" || a == "--test.fuzzworker" {
+			shard += "w" + strconv.Itoa(os.Getpid())
+		}
+	}
 	regMu.Lock()
 	defer regMu.Unlock()
 	for id, r := range reg {
@@ -179,8 +185,12 @@ func FlushAll() {
 			fmt.Fprintf(os.Stderr, "evid: marshal %s: %v\n", id, err)
 			continue
 		}
+		// (written under a temporary name and renamed, so that a reader never sees half a file)
 		os.WriteFile(base+".hashes", hb, 0o644)
-		os.WriteFile(base+".json", b, 0o644)
+		tmp := base + ".json.tmp" + strconv.Itoa(os.Getpid())
+		if os.WriteFile(tmp, b, 0o644) == nil {
+			os.Rename(tmp, base+".json")
+		}
 	}
 }
 
